@@ -46,14 +46,16 @@ def c06_1(R):
             ok = False
             for tt, tgt, lab in controlling_edges(c, t.bb):
                 cd, neg = switch_cond(c, tt)
-                if cd.kind == "bin" and cd.op in ("Eq", "Ne", "Ge", "Lt"):
-                    ta, tb = trace(c, cd.a), trace(c, cd.b)
-                    pol = (lab[1] != 0) if lab[0] == "val" else (0 in lab[1])
-                    if neg:
-                        pol = not pol
+                pol = (lab[1] != 0) if lab[0] == "val" else (0 in lab[1])
+                if neg:
+                    pol = not pol
+                for r_, x_, y_ in implied(cd, pol):
+                    if r_ != "ne":
+                        continue
+                    ta, tb = trace(c, x_), trace(c, y_)
                     a_cnt = ta.kind == "call" and call_matches(ta.root[1], ("SegmentForSending::retransmit_count",))
                     b_max = "max_segment_retransmissions" in tb.describe()
-                    if a_cnt and b_max and ((cd.op in ("Eq", "Ge") and not pol) or (cd.op in ("Ne", "Lt") and pol)):
+                    if a_cnt and b_max:
                         ok = True
             if ok:
                 R.ok("send=>below-retry-cap", "send_data! expansion", "send only when retransmit_count() != max_segment_retransmissions")
@@ -220,6 +222,9 @@ def c06_4(R):
     for name in ("pop_mtu_probe", "pop_expired_mtu_probe"):
         b = R.body(SEGS + "::" + name)
         decs = [s for s in b.stmts() if (lambda fu: fu and fu.field == "Segments.len_bytes" and fu.op == "-=")(field_update(b, s))]
+        # ... or the same bookkeeping done through a private counter helper
+        lb = {"Segments.len_bytes-=": ("Segments.len_bytes", "-=", None)}
+        decs += [t for t in b.calls() if t.j.get("res_local") and t.resolved != b.name and counter_helper_summary(F, t.resolved, "Segments.segments", lb)]
         R.floor("len_bytes -= in " + name, len(decs), 1)
         for s in decs:
             conds = [describe_cond(b, t, lab) for t, tgt, lab in controlling_edges(b, s.bb)]
@@ -301,11 +306,11 @@ def c06_6(R):
             c, neg = switch_cond(oa, tt)
             pol = (lab[1] != 0) if lab[0] == "val" else (0 in lab[1])
             # `let should = a >= b; if !should {return}`
-            if c.kind in ("bin",) and c.op in ("Ge", "Lt") and is_thresh(c.b) and "dup_acks" in trace(oa, c.a).describe():
-                if neg:
-                    pol = not pol
-                if (c.op == "Ge" and pol) or (c.op == "Lt" and not pol):
-                    ok = True
+            if neg:
+                pol = not pol
+            o = ordering(c, pol)
+            if o is not None and not o[2] and is_thresh(o[0]) and "dup_acks" in trace(oa, o[1]).describe():
+                ok = True  # SACK_DUP_THRESH <= dup_acks
         if ok:
             R.ok("enter-recovery<=>dup_acks>=3", oa.name)
         else:
@@ -316,13 +321,14 @@ def c06_6(R):
         if cl in ("item:constants::SACK_DUP_THRESH", "const:3"):
             for tt, tgt, lab in controlling_edges(cs, it.bb):
                 c, neg = switch_cond(cs, tt)
-                if c.kind == "bin" and c.op == "Ge":
-                    pol = (lab[1] != 0) if lab[0] == "val" else (0 in lab[1])
-                    if neg:
-                        pol = not pol
-                    ta = trace(cs, c.a)
-                    srcb = value_sources(cs, c.b)
-                    if pol and ta.kind == "call" and "count_ones" in (ta.root[1].resolved or "") and any(x == ("const", "constants::SACK_DUP_THRESH") or x == ("const", 3) for x in srcb):
+                pol = (lab[1] != 0) if lab[0] == "val" else (0 in lab[1])
+                if neg:
+                    pol = not pol
+                o = ordering(c, pol)
+                if o is not None and not o[2]:
+                    ta = trace(cs, o[1])
+                    srcb = value_sources(cs, o[0])
+                    if ta.kind == "call" and "count_ones" in (ta.root[1].resolved or "") and any(x == ("const", "constants::SACK_DUP_THRESH") or x == ("const", 3) for x in srcb):
                         okc = True
     if okc:
         R.ok("sack-evidence>=3=>threshold", cs.name)
